@@ -304,7 +304,7 @@ void Circuit::append_from_text(std::string_view text) {
     circuit_read_operations(
         *this,
         [&]() {
-            return k < text.size() ? text[k++] : EOF;
+            return k < text.size() ? (int)(unsigned char)text[k++] : EOF;
         },
         READ_CONDITION::READ_UNTIL_END_OF_FILE);
 }
